@@ -1,5 +1,5 @@
 //! C18 stage B: loom bodies run against the instrumented copy of the engine (std::sync -> loom::sync).
-//!   loomh run <B1|B2|B3|B4|B5> <threads> <preemption_bound|none>   (child mode: one body, exits 0 / 101, prints JSON)
+//!   loomh run <B1|B2|B3|B4|B5|B6> <threads> <preemption_bound|none>   (child mode: one body, exits 0 / 101, prints JSON)
 use arimaa_engine_step::*;
 use loom::sync::Arc as LArc;
 use loom::sync::Mutex as LMutex;
@@ -373,10 +373,68 @@ fn b5(threads: usize) {
     drop(reference);
 }
 
+// ---------- B6: stack depth of concurrent drops (C20 under concurrency) ----------
+loom::thread_local! {
+    static DROP_BASE: std::cell::Cell<usize> = std::cell::Cell::new(0);
+}
+static MAX_DROP_DEPTH: AtomicU64 = AtomicU64::new(0);
+
+/// List element whose Drop records how far below the start of the enclosing drop call the stack has grown.
+struct Probe(#[allow(dead_code)] u64);
+impl Drop for Probe {
+    fn drop(&mut self) {
+        let marker = 0u8;
+        let here = &marker as *const u8 as usize;
+        let base = DROP_BASE.with(|b| b.get());
+        if base != 0 {
+            let depth = base.abs_diff(here) as u64;
+            MAX_DROP_DEPTH.fetch_max(depth, Ordering::Relaxed);
+        }
+    }
+}
+
+#[inline(never)]
+fn drop_measured<T>(x: T) {
+    let marker = 0u8;
+    DROP_BASE.with(|b| b.set(&marker as *const u8 as usize));
+    drop(x);
+    DROP_BASE.with(|b| b.set(0));
+}
+
+pub const B6_TAIL: u64 = 300;
+/// a recursive drop of B6_TAIL nodes needs far more than this; an iterative one a few hundred bytes
+pub const B6_DEPTH_LIMIT: u64 = 4096;
+
+/// B6: k owners of lists that share a 300-node tail drop them concurrently; whichever thread ends up freeing the tail
+/// must do so without stack growth proportional to its length, under EVERY interleaving of the reference-count
+/// operations (a drop loop that gives up when two owners race - e.g. Arc::try_unwrap failing on both sides - falls
+/// back to the recursive drop glue exactly in those schedules).
+fn b6(threads: usize) {
+    let mut tail: List<Probe> = List::new();
+    for i in 0..B6_TAIL {
+        tail = tail.append(Probe(i));
+    }
+    let owners: Vec<List<Probe>> = (0..threads).map(|_| tail.clone()).collect();
+    drop_measured(tail); // owners keep it alive: nothing is freed here
+    let mut hs = vec![];
+    for l in owners.into_iter() {
+        hs.push(loom::thread::spawn(move || {
+            let n = l.len();
+            drop_measured(l);
+            n
+        }));
+    }
+    for h in hs {
+        assert_eq!(h.join().unwrap() as u64, B6_TAIL);
+    }
+    let d = MAX_DROP_DEPTH.load(Ordering::Relaxed);
+    assert!(d <= B6_DEPTH_LIMIT, "B6: freeing a shared {}-node history used {} bytes of stack below the drop call (limit {}): stack use grows with the history length", B6_TAIL, d, B6_DEPTH_LIMIT);
+}
+
 fn main() {
     let a: Vec<String> = std::env::args().collect();
     if a.len() != 5 || a[1] != "run" {
-        eprintln!("usage: loomh run <B1|B2|B3|B4|B5> <threads> <preemption_bound|none>");
+        eprintln!("usage: loomh run <B1|B2|B3|B4|B5|B6> <threads> <preemption_bound|none>");
         std::process::exit(2);
     }
     let body = a[2].clone();
@@ -395,12 +453,14 @@ fn main() {
             "B3" => b3(threads),
             "B4" => b4(threads),
             "B5" => b5(threads),
+            "B6" => b6(threads),
             _ => panic!("unknown body"),
         }
     });
     println!(
         "{}",
         serde_json::json!({"body": body, "threads": threads, "preemption_bound": bound, "executions": EXECUTIONS.load(Ordering::Relaxed),
+            "max_drop_depth_bytes": MAX_DROP_DEPTH.load(Ordering::Relaxed),
             "engine_calls": ENGINE_CALLS.load(Ordering::Relaxed), "wall_s": t0.elapsed().as_secs_f64()})
     );
 }
